@@ -208,3 +208,56 @@ fn world_iter_destroy_symbolic_decisions() {
     let zf = visits[3] == 1 && (d[3] == 1 || d[3] == 3);
     assert!(world.contains(z) == !zf);
 }
+
+// ---- C02/C06/C11-adjacent (bounded: 3 entities, one removal at a symbolic position): the runtime-borrowed paths
+// (ecs_iter_borrow!, ecs_find_borrow!, Archetype::borrow / borrow_slice) present each live entity once with its own data,
+// and a write through one path is seen by the others
+#[kani::proof]
+#[kani::unwind(5)]
+fn world_borrow_paths_len3() {
+    let mut world = EcsWorld::with_capacity(EcsWorldCapacity { arch_foo: 3, arch_bar: 0 });
+    let e = [
+        world.create::<ArchFoo>((CompA(10), CompB(100))),
+        world.create::<ArchFoo>((CompA(11), CompB(101))),
+        world.create::<ArchFoo>((CompA(12), CompB(102))),
+    ];
+    let kill: u8 = kani::any();
+    kani::assume(kill < 4);
+    if kill < 3 { world.destroy(e[kill as usize]); }
+    // write through the view path
+    for i in 0..3 {
+        if i as u8 != kill {
+            let mut v = world.view(e[i]).unwrap();
+            assert!(v.component::<CompA>().0 == 10 + i as u32);
+            v.component_mut::<CompB>().0 += 1000;
+        }
+    }
+    // read through the borrow paths
+    let mut count = 0usize;
+    let mut seen = [0u8; 3];
+    ecs_iter_borrow!(world, |entity: &Entity<ArchFoo>, a: &CompA, b: &CompB| {
+        let i = (a.0 - 10) as usize;
+        assert!(*entity == e[i]);
+        assert!(b.0 == 1100 + i as u64);
+        seen[i] += 1;
+        count += 1;
+    });
+    assert!(count == world.archetype::<ArchFoo>().len());
+    for i in 0..3 { assert!(seen[i] == (i as u8 != kill) as u8); }
+    for i in 0..3 {
+        let r = ecs_find_borrow!(world, e[i], |a: &CompA, b: &mut CompB| { b.0 += 1; (a.0, b.0) });
+        if i as u8 == kill { assert!(r.is_none()); } else { assert!(r == Some((10 + i as u32, 1101 + i as u64))); }
+    }
+    {
+        let arch = world.archetype::<ArchFoo>();
+        let ents = arch.entities();
+        let sa = arch.borrow_slice::<CompA>();
+        let sb = arch.borrow_slice::<CompB>();
+        assert!(ents.len() == arch.len() && sa.len() == arch.len() && sb.len() == arch.len());
+        for k in 0..ents.len() {
+            let i = (sa[k].0 - 10) as usize;
+            assert!(ents[k] == e[i] && sb[k].0 == 1101 + i as u64);
+        }
+    }
+}
+
